@@ -12,6 +12,7 @@ union-find, which is in `Props/C04UF.lean`).
   WithTop        ↦ Option, `none` = the adjoined top
   Pair           ↦ product, component-wise
   VecUnion       ↦ finite sequence, index-wise join with extension
+  DomPair<Max,V> ↦ (key, value): the larger key dominates, equal keys join the values
 and `merge_refines_join : abs (merge a b).1 = join (abs a) (abs b)` is proved by induction on the
 type descriptor, so it holds through every nesting and for every receiver representation
 (`RT`: hash-like or `Vec` receivers) with the other side an arbitrary list (= any
@@ -36,6 +37,7 @@ open List
   | .withTop s => Option (Spec s)
   | .pair s t => Spec s × Spec t
   | .vec s => List (Spec s)
+  | .domPair s => Nat × Spec s
 
 /-- join of `Option` with `none` as bottom -/
 def botJoin {S : Type} (j : S → S → S) : Option S → Option S → Option S
@@ -69,6 +71,10 @@ def join : (s : Shape) → Spec s → Spec s → Spec s
   | .pair s t, a, b => (join s (a : Spec s × Spec t).1 (b : Spec s × Spec t).1,
                         join t (a : Spec s × Spec t).2 (b : Spec s × Spec t).2)
   | .vec s, a, b => seqJoin (join s) a b
+  | .domPair s, a, b =>   -- the pair with the dominating key wins; equal keys join the values
+    if (a : Nat × Spec s).1 < (b : Nat × Spec s).1 then b
+    else if (a : Nat × Spec s).1 = (b : Nat × Spec s).1 then ((a : Nat × Spec s).1, join s (a : Nat × Spec s).2 (b : Nat × Spec s).2)
+    else a
 
 /-- an optional value with bottoms erased -/
 def eraseBot {V S : Type} (isb : V → Bool) (ab : V → S) : Option V → Option S
@@ -86,6 +92,7 @@ def abs : (s : Shape) → Val s → Spec s
   | .withTop s, v => Option.map (abs s) v
   | .pair s t, v => (abs s (v : Val s × Val t).1, abs t (v : Val s × Val t).2)
   | .vec s, v => List.map (abs s) v
+  | .domPair s, v => ((v : Nat × Val s).1, abs s (v : Nat × Val s).2)
 
 /-- representable values: numbers are `u64`; map keys are distinct (what a `HashMap`/`BTreeMap`
 is, and the documented precondition of `VecMap`) -/
@@ -100,6 +107,7 @@ def WF : (s : Shape) → Val s → Prop
   | .withTop s, v => ∀ x, (v : Option (Val s)) = some x → WF s x
   | .pair s t, v => WF s (v : Val s × Val t).1 ∧ WF t (v : Val s × Val t).2
   | .vec s, v => ∀ x ∈ (v : List (Val s)), WF s x
+  | .domPair s, v => (v : Nat × Val s).1 ≤ U64MAX ∧ WF s (v : Nat × Val s).2
 
 /-- everything the induction carries for one type descriptor -/
 structure Good (s : Shape) : Prop where
@@ -504,6 +512,76 @@ theorem aux_good_vec {s : Shape} (g : Good s) : Good (.vec s) where
     simp only [Lat.from_, Lat.isBot]
     cases b <;> simp
 
+theorem aux_good_domPair {s : Shape} (g : Good s) : Good (.domPair s) where
+  refines r a b ha hb := by
+    simp only [WF] at ha hb
+    obtain ⟨ka, va⟩ := a
+    obtain ⟨kb, vb⟩ := b
+    simp only [Lat.merge, abs, join]
+    by_cases h1 : ka = kb
+    · subst h1; simp [g.refines _ _ _ ha.2 hb.2]
+    · by_cases h2 : ka < kb
+      · simp [h1, h2, g.from_abs _ _ hb.2]
+      · simp [h1, h2]
+  wf r a b ha hb := by
+    simp only [WF] at ha hb ⊢
+    obtain ⟨ka, va⟩ := a
+    obtain ⟨kb, vb⟩ := b
+    simp only [Lat.merge]
+    by_cases h1 : ka = kb
+    · simp only [h1, if_true]; exact ⟨hb.1, g.wf _ _ _ ha.2 hb.2⟩
+    · by_cases h2 : ka < kb
+      · simp only [h1, h2, if_false, if_true]; exact ⟨hb.1, g.from_wf _ _ hb.2⟩
+      · simp only [h1, h2, if_false]; exact ha
+  bot_merge r a b ha hb := by
+    simp only [WF] at ha hb
+    obtain ⟨ka, va⟩ := a
+    obtain ⟨kb, vb⟩ := b
+    simp only [Lat.merge, Lat.isBot]
+    by_cases h1 : ka = kb
+    · subst h1
+      simp only [if_true, g.bot_merge _ _ _ ha.2 hb.2]
+      cases (ka == 0) <;> cases Lat.isBot s va <;> cases Lat.isBot s vb <;> rfl
+    · by_cases h2 : ka < kb
+      · have hkb : (kb == 0) = false := by simp; omega
+        simp [h1, h2, hkb]
+      · have hka : (ka == 0) = false := by simp; omega
+        simp [h1, h2, hka]
+  bot_left a b ha hb h := by
+    simp only [WF] at ha hb
+    obtain ⟨ka, va⟩ := a
+    obtain ⟨kb, vb⟩ := b
+    simp only [Lat.isBot, Bool.and_eq_true, beq_iff_eq] at h
+    obtain ⟨hk, hv⟩ := h
+    subst hk
+    simp only [abs, join]
+    by_cases h1 : 0 < kb
+    · simp [h1]
+    · have : kb = 0 := by omega
+      subst this
+      simp [g.bot_left _ _ ha.2 hb.2 hv]
+  bot_right a b ha hb h := by
+    simp only [WF] at ha hb
+    obtain ⟨ka, va⟩ := a
+    obtain ⟨kb, vb⟩ := b
+    simp only [Lat.isBot, Bool.and_eq_true, beq_iff_eq] at h
+    obtain ⟨hk, hv⟩ := h
+    subst hk
+    simp only [abs, join]
+    by_cases h1 : ka = 0
+    · subst h1; simp [g.bot_right _ _ ha.2 hb.2 hv]
+    · simp [h1]
+  from_abs r b hb := by
+    simp only [WF] at hb
+    simp only [Lat.from_, abs, g.from_abs _ _ hb.2]
+  from_wf r b hb := by
+    simp only [WF] at hb ⊢
+    simp only [Lat.from_]
+    exact ⟨hb.1, g.from_wf _ _ hb.2⟩
+  from_bot r b hb := by
+    simp only [WF] at hb
+    simp only [Lat.from_, Lat.isBot, g.from_bot _ _ hb.2]
+
 /-! ### MapUnion -/
 namespace TMap
 variable {κ V : Type} [DecidableEq κ]
@@ -801,6 +879,7 @@ theorem aux_good : ∀ s : Shape, Good s
   | .withTop s => aux_good_withTop (aux_good s)
   | .pair s t => aux_good_pair (aux_good s) (aux_good t)
   | .vec s => aux_good_vec (aux_good s)
+  | .domPair s => aux_good_domPair (aux_good s)
 
 /-- **Merge refines the abstract join**, for every lattice type built from the constructors,
 every receiver representation `r`, and any (well-formed) other value. -/
